@@ -149,6 +149,12 @@ theorem expandcanonical_src_value (R : RF K) (env : Env K) (hE : IsExp env) :
     ∃ e, expandcanonicalSrc (sgn expandcanonicalSign) ecReversed ecDen R = some e ∧ e.eval env = R.value env :=
   expandcanonicalSrc_value R env (Or.inl (by simp [sgn, expandcanonicalSign])) hE.1
 
+/-- **expand_response_value** (`expand_response()`, `as_sum()`): the numerator expanded into terms, each over the
+    polynomial denominator; no hypothesis on the point (both sides are 0 by convention at a pole). -/
+theorem expand_response_value (R : RF K) (env : Env K) (hE : IsExp env) :
+    (expandResponse R).eval env = R.value env :=
+  expandResponse_value R env hE.1
+
 /-! ## 6. `simplify_factors`, `simplify_terms`: the loops around SymPy's simplifier
 
   `simp` stands for `sympy.simplify`; what is assumed of it is only that it keeps the value AT THE POINT
